@@ -193,8 +193,12 @@ def run(ctx):
     import c10
     import parsersym
     rp10 = Replay()
-    c10.literal_lemmas(ctx, q, parsersym.Setting(), rp10)
+    S10 = parsersym.Setting()
+    c10.literal_lemmas(ctx, q, S10, rp10)
     rp10.close()
+    # framing of what the Builder emitted: word count = 1 + result type + result id + the operands' words (one, two, string)
+    import c04
+    c04.assemble_index(ctx, q, S10)
     ctx.extra["states"] = checked
     ctx.extra["transitions"] = checked
     ctx.extra["native_calls"] = native
@@ -357,6 +361,18 @@ def check_emission(eng, r, b0, bidx, fields, name, sig, args, entry, kn, qn, var
                 break
     if pos != sorted(pos):
         return "operands carry the arguments out of order (argument positions %s)" % pos
+    # every word of a slice argument (`impl AsRef<[Word]>`: two opaque words here, possibly equal) shows up as an operand, in order
+    all_payloads = [o[1] for o in ops if o[0] != "*" and o[1] is not None and z3.is_expr(o[1])]
+    for key_ in sorted((k_ for k_ in r.mem if isinstance(k_, tuple) and len(k_) == 2 and k_[0] == "h" and str(k_[1]).startswith("slice")), key=str):
+        if True:
+            words = r.mem.get(key_)
+            if isinstance(words, sym.Arr):
+                k = 0
+                for p in all_payloads:
+                    if k < len(words.items) and p.eq(words.items[k]):
+                        k += 1
+                if k != len(words.items):
+                    return "only %d of the %d words of a slice argument are carried as operands" % (k, len(words.items))
     return None
 
 
